@@ -62,6 +62,11 @@ type Opts struct {
 	NoEP bool
 	// OnlySpecial: only positions that carry rights or an en-passant target.
 	OnlySpecial bool
+	// BlackKingIn, if non-nil, restricts the black king to these squares
+	// (constrained classes: the defending king confined to a region).
+	BlackKingIn []int
+	// OnlyStm restricts the side to move (0 = both, 1 = White only, 2 = Black only).
+	OnlyStm int
 	// Filter, if set, rejects placements early (called before side/rights).
 	Filter func(p *refchess.Pos) bool
 }
@@ -77,6 +82,17 @@ func EnumShard(c Class, o Opts, fn func(p *refchess.Pos)) {
 	for bk := 0; bk < 64; bk++ {
 		if bk == wk {
 			continue
+		}
+		if o.BlackKingIn != nil {
+			in := false
+			for _, x := range o.BlackKingIn {
+				if x == bk {
+					in = true
+				}
+			}
+			if !in {
+				continue
+			}
 		}
 		df, dr := bk%8-wk%8, bk/8-wk/8
 		if df >= -1 && df <= 1 && dr >= -1 && dr <= 1 {
@@ -135,6 +151,9 @@ func finish(p *refchess.Pos, o Opts, fn func(p *refchess.Pos)) {
 		}
 	}
 	for stm := int8(0); stm < 2; stm++ {
+		if (o.OnlyStm == 1 && stm != 0) || (o.OnlyStm == 2 && stm != 1) {
+			continue
+		}
 		p.Stm = stm
 		if p.InCheck(int(stm) ^ 1) {
 			continue
